@@ -116,7 +116,96 @@ Proof.
   rewrite E, T, <- app_assoc. reflexivity.
 Qed.
 
+(* ------------------------------------------------------------------ whole sessions *)
+(* the lines the main loop executes, each with the state it is executed in (the same recursion as uci_run) *)
+Fixpoint uci_exec (extra : N) (fuel : nat) (u : ustate) (pending : option string) (input : list (nat * string)) : list (ustate * string) :=
+  match fuel with
+  | O => []
+  | S f =>
+    let next : option (string * list (nat * string)) :=
+      match pending with
+      | Some l => Some (l, input)
+      | None => match input with (_, l) :: r => Some (l, r) | [] => None end
+      end in
+    match next with
+    | None => []
+    | Some (l, input') =>
+      let '(u', outs, requeue, input'', st) := uci_step extra u l input' in
+      (u, l) :: match st with Continue => uci_exec extra f u' requeue input'' | _ => [] end
+    end
+  end.
+
+(* a `go` the loop model covers: its arguments parse and it is depth-limited, infinite, or its deadline has already passed *)
+Definition answerable_go (ul : ustate * string) : bool :=
+  let line := trim (snd ul) in
+  negb (String.eqb line "") && String.eqb (lower_str (first_token line)) "go" &&
+  match go_tokens (white (u_game (fst ul))) go_init (split_sp (skip 2 line)) [] (S (String.length line)) with
+  | GoArgs a _ => ((go_budget a =? -1) || (go_budget a =? 0))%Z
+  | _ => false
+  end.
+Definition count_best (outs : list uout) : nat := List.length (filter is_best outs).
+
+Lemma count_best_app a b : count_best (a ++ b)%list = (count_best a + count_best b)%nat.
+Proof. unfold count_best. rewrite filter_app, app_length. reflexivity. Qed.
+Lemma count_best_text l : count_best (map OText l) = O.
+Proof. unfold count_best. rewrite (filter_map_none OText) by reflexivity. reflexivity. Qed.
+
+Lemma step_best_count extra u line input :
+  let '(_, outs, _, _, _) := uci_step extra u line input in count_best outs = if answerable_go (u, line) then 1%nat else O.
+Proof.
+  destruct (answerable_go (u, line)) eqn:AG.
+  - unfold answerable_go in AG. cbn [fst snd] in AG. apply andb_prop in AG. destruct AG as (AG & GT). apply andb_prop in AG. destruct AG as (NE & CM).
+    destruct (go_tokens _ _ _ _ _) as [a msgs|msgs| |] eqn:G; try discriminate GT.
+    pose proof (C13_go_answered_with_exactly_one_bestmove extra u line input a msgs) as K.
+    assert (CM' : lower_str (first_token (trim line)) = "go") by (apply String.eqb_eq; exact CM).
+    assert (NE' : trim line <> "") by (intros E; rewrite E in NE; discriminate NE).
+    assert (BD : (go_budget a = -1 \/ go_budget a = 0)%Z).
+    { apply orb_prop in GT. destruct GT as [B|B]; apply Z.eqb_eq in B; auto. }
+    specialize (K CM' NE' G BD). destruct (uci_step extra u line input) as [[[[u' outs] rq] i'] st]. destruct K as (_ & K & _). exact K.
+  - unfold uci_step. cbv zeta.
+    destruct (String.eqb (trim line) "") eqn:E0; [reflexivity|].
+    set (cmd := lower_str (first_token (trim line))) in *.
+    destruct (String.eqb cmd "quit" || String.eqb cmd "exit" || String.eqb cmd "x")%bool; [reflexivity|].
+    destruct (String.eqb cmd "uci"); [reflexivity|]. destruct (String.eqb cmd "isready"); [reflexivity|].
+    destruct (String.eqb cmd "ucinewgame" || String.eqb cmd "cleartt")%bool; [reflexivity|].
+    destruct (String.eqb cmd "d"); [reflexivity|]. destruct (String.eqb cmd "eval"); [reflexivity|].
+    destruct (String.eqb cmd "position").
+    { destruct (negb _); [reflexivity|]. destruct (parse_position _) as [[g rep]| |]; reflexivity. }
+    destruct (String.eqb cmd "go") eqn:CG.
+    + unfold answerable_go in AG. cbn [fst snd] in AG. rewrite E0 in AG. fold cmd in AG. rewrite CG in AG. cbn [negb andb] in AG.
+      destruct (go_tokens _ _ _ _ _) as [a msgs|msgs| |]; [|apply count_best_text|reflexivity|reflexivity].
+      rewrite AG. cbn [negb]. rewrite count_best_app, count_best_text. reflexivity.
+    + destruct (String.eqb cmd "stop"); [reflexivity|].
+      destruct (String.eqb cmd "move"). { destruct (play_moves _ _ _) as [[g rep]| |]; reflexivity. }
+      destruct (String.eqb cmd "perft").
+      { destruct (rest_tokens (trim line)) as [|t r]; [reflexivity|]. destruct (String.eqb t "simple"); [reflexivity|].
+        destruct (parse_uint 256 t) as [d|]; [|reflexivity]. destruct (d =? 0)%N; reflexivity. }
+      destruct (String.eqb cmd "perft!").
+      { destruct (rest_tokens (trim line)) as [|t r]; [reflexivity|].
+        destruct (parse_uint 256 t) as [d|]; [|reflexivity]. destruct (d =? 255)%N; [reflexivity|].
+        rewrite count_best_app. unfold count_best at 1. rewrite filter_map_none by reflexivity. reflexivity. }
+      destruct (_ || _)%bool; reflexivity.
+Qed.
+
+(* every session, whatever its lines and their timing: the number of best moves printed is exactly the number of `go` commands the main loop
+   executed (those the model covers) -- each is answered once, none twice, and nothing else prints a best move *)
+Theorem C13_every_go_of_a_session_is_answered_exactly_once : forall extra fuel u pending input,
+  count_best (fst (uci_run extra fuel u pending input)) = List.length (filter answerable_go (uci_exec extra fuel u pending input)).
+Proof.
+  intros extra fuel. induction fuel as [|f IH]; intros u pending input; [reflexivity|].
+  cbn [uci_run uci_exec].
+  destruct (match pending with Some l => Some (l, input) | None => match input with [] => None | (_, l) :: r => Some (l, r) end end) as [[l input']|]; [|reflexivity].
+  pose proof (step_best_count extra u l input') as K.
+  destruct (uci_step extra u l input') as [[[[u' outs] rq] input''] st].
+  cbn [filter]. destruct st.
+  - specialize (IH u' rq input''). destruct (uci_run extra f u' rq input'') as [outs' st']. cbn [fst] in *.
+    rewrite count_best_app, K, IH. destruct (answerable_go (u, l)); reflexivity.
+  - cbn [fst]. rewrite K. destruct (answerable_go (u, l)); reflexivity.
+  - cbn [fst]. rewrite K. destruct (answerable_go (u, l)); reflexivity.
+Qed.
+
 Print Assumptions C13_uciok.
+Print Assumptions C13_every_go_of_a_session_is_answered_exactly_once.
 Print Assumptions C13_handed_back_line_is_executed_next.
 Print Assumptions C13_line_after_stop_is_not_lost.
 Print Assumptions C13_go_answered_with_exactly_one_bestmove.
